@@ -135,6 +135,17 @@ def check_call_site(ctx, site: CallSite):
                 fam2 = conflict(at, tokens(callee_name))
                 if fam2 and fam2 not in roles_of_tokens(tokens(pname)) and c.kind == "fn":
                     found.append(("callee-name", fam2, callee_name, ast.unparse(arg), arg))
+        # swapped-argument form: the argument is named exactly like another parameter of the callee, and that
+        # parameter is bound to something that is not named like it
+        last = {}
+        for pname, arg in binding.items():
+            ln = _last_identifier(arg)
+            if ln:
+                last[pname] = ln
+        pnames = {p.name for p in params}
+        for pname, ln in last.items():
+            if ln != pname and ln in pnames and last.get(ln) is not None and last[ln] != ln and last[ln] in pnames:
+                found.append(("swap", "name", pname, ast.unparse(binding[pname]), binding[pname]))
         per_callee.append(found)
     if per_callee:
         first = per_callee[0]
@@ -142,6 +153,16 @@ def check_call_site(ctx, site: CallSite):
             if all(any(x[1] == item[1] and x[3] == item[3] for x in other) for other in per_callee[1:]):
                 conflicts.append(item)
     return n_bound, conflicts
+
+
+def _last_identifier(e: ast.expr) -> Optional[str]:
+    while isinstance(e, ast.Call) and isinstance(e.func, ast.Name) and e.func.id in ("int", "str", "float") and e.args:
+        e = e.args[0]
+    if isinstance(e, ast.Name):
+        return e.id
+    if isinstance(e, ast.Attribute):
+        return e.attr
+    return None
 
 
 def run_role_rule(ck, rule: str, modules: Optional[Set[str]] = None, functions: Optional[Set[str]] = None) -> int:
@@ -167,6 +188,12 @@ def run_role_rule(ck, rule: str, modules: Optional[Set[str]] = None, functions: 
                 construct = f"{q.split(':')[-1]}->{'/'.join(sorted(callee_names))}({argtext})"
                 if exc:
                     ck.ok(rule, construct, site.where, "frozen exception: " + exc)
+                    continue
+                if kind == "swap":
+                    ck.violation(rule, construct, site.where,
+                                 f"argument `{argtext}` is named like another parameter of the callee but is bound to "
+                                 f"`{target}` (arguments exchanged)", found=f"{argtext} -> {target}",
+                                 required="each like-named argument in its own parameter")
                     continue
                 ck.violation(rule, construct, site.where,
                              f"argument `{argtext}` carries the opposite {fam} role to the "
